@@ -11,7 +11,7 @@ def exec_cases(rnd, full):
     for mode in "012":
         for reg in R64:
             for v in vals:
-                sps = isa.spellings(v, rnd, all_=full)
+                sps = isa.spellings(v, rnd, all_=full, wrap=True)
                 sp, txt = sps[rnd.randrange(len(sps))] if not full else (None, None)
                 for sp, txt in (sps if full else [(sp, txt)]):
                     if reg == "rsp":
